@@ -21,6 +21,7 @@
      I,p,j               wbxml_tree_add_node      (re-insertion of the detached sub-tree whose root has index j)
      K,j                 wbxml_tree_node_destroy_all on the detached sub-tree with root index j
      N,i,name,recurs     wbxml_tree_node_elt_get_from_name(node i, name, recurs) -> index of the result
+     ZG / ZL / ZH / ZT / ZC / ZR  the same add call with tree == NULL (refused)
    Answer: <st>#<dump>|<st>#<dump>|... W=<hex|ERRn> X=<hex|ERRn>
    dump = nodes ','-separated: kind:payload:parent:children:prev:next */
 #include "vh.h"
@@ -180,6 +181,9 @@ static void run_seq(int langid, int xmlgen, char *opsline) {
         int nf = split(ops[i], ',', f, 64), ok = 0, residx = -3;
         WBXMLTreeNode *res = NULL;
         char op = f[0][0];
+        /* a leading 'Z': the same call with tree == NULL (refused by wbxml_tree_add_node; the caller keeps what it owns) */
+        WBXMLTree *targ = tree;
+        if (op == 'Z') { op = f[0][1]; targ = NULL; }
         if (op == 'E' && nf >= 3) {
             unsigned char *nm = hexstr(f[2]);
             res = wbxml_tree_add_xml_elt(tree, ref(f[1]), nm); ok = res != NULL; free(nm);
@@ -197,7 +201,7 @@ static void run_seq(int langid, int xmlgen, char *opsline) {
             free(nm); free(tx);
         } else if ((op == 'G' || op == 'H') && nf >= 3) {
             WBXMLTag *tag = wbxml_tag_create_token(&tree->lang->tagTable[atoi(f[2])]);
-            if (op == 'G') res = wbxml_tree_add_elt(tree, ref(f[1]), tag);
+            if (op == 'G') res = wbxml_tree_add_elt(targ, ref(f[1]), tag);
             else {
                 WBXMLAttribute *at[32]; int k, na = 0;
                 for (k = 3; k + 1 < nf && na < 30; k += 2) {
@@ -211,7 +215,7 @@ static void run_seq(int langid, int xmlgen, char *opsline) {
                     at[na++] = a;
                 }
                 at[na] = NULL;
-                res = wbxml_tree_add_elt_with_attrs(tree, ref(f[1]), tag, at);
+                res = wbxml_tree_add_elt_with_attrs(targ, ref(f[1]), tag, at);
                 for (k = 0; k < na; k++) wbxml_attribute_destroy(at[k]);
             }
             ok = res != NULL;
@@ -219,21 +223,23 @@ static void run_seq(int langid, int xmlgen, char *opsline) {
         } else if (op == 'L' && nf >= 3) {
             unsigned char *nm = hexstr(f[2]);
             WBXMLTag *tag = wbxml_tag_create_literal(nm);
-            res = wbxml_tree_add_elt(tree, ref(f[1]), tag); ok = res != NULL;
+            res = wbxml_tree_add_elt(targ, ref(f[1]), tag); ok = res != NULL;
             wbxml_tag_destroy(tag); free(nm);
         } else if (op == 'T' && nf >= 3) {
             size_t tl; unsigned char *tx = vh_unhex(f[2], &tl);
-            res = wbxml_tree_add_text(tree, ref(f[1]), tx, (WB_ULONG) tl); ok = res != NULL;
+            res = wbxml_tree_add_text(targ, ref(f[1]), tx, (WB_ULONG) tl); ok = res != NULL;
             free(tx);
         } else if (op == 'C' && nf >= 2) {
-            res = wbxml_tree_add_cdata(tree, ref(f[1])); ok = res != NULL;
+            res = wbxml_tree_add_cdata(targ, ref(f[1])); ok = res != NULL;
         } else if (op == 'R' && nf >= 5) {
             WBXMLTree *nt = wbxml_tree_create((WBXMLLanguage) atoi(f[2]), WBXML_CHARSET_UNKNOWN);
             unsigned char *nm = hexstr(f[3]); size_t tl; unsigned char *tx = vh_unhex(f[4], &tl);
             WBXMLTreeNode *r = NULL;
             if (nt && nt->lang) r = wbxml_tree_add_xml_elt(nt, NULL, nm);
             if (r && tl) wbxml_tree_add_text(nt, r, tx, (WB_ULONG) tl);
-            res = r ? wbxml_tree_add_tree(tree, ref(f[1]), nt) : NULL; ok = res != NULL;
+            res = r ? wbxml_tree_add_tree(targ, ref(f[1]), nt) : NULL; ok = res != NULL;
+            /* refused: the caller still owns the tree it offered and destroys it (a library that had taken it over
+               on the failure path releases it twice: ASan) */
             if (!ok) wbxml_tree_destroy(nt);
             free(nm); free(tx);
         } else if (op == 'B' && nf >= 4) {
